@@ -113,7 +113,8 @@ func init() {
 		return Ops{
 			Less: func(i, j int) bool { return slice[i] < slice[j] },
 			HashWithSeed: func(i int, seed uint32) uint32 {
-				return hash32(math.Float32bits(slice[i]), seed)
+				// Adding 0 maps -0 to +0: keys that compare equal must hash equally.
+				return hash32(math.Float32bits(slice[i]+0), seed)
 			},
 		}
 	})
@@ -122,7 +123,8 @@ func init() {
 		return Ops{
 			Less: func(i, j int) bool { return slice[i] < slice[j] },
 			HashWithSeed: func(i int, seed uint32) uint32 {
-				return hash64(math.Float64bits(slice[i]), seed)
+				// Adding 0 maps -0 to +0: keys that compare equal must hash equally.
+				return hash64(math.Float64bits(slice[i]+0), seed)
 			},
 		}
 	})
